@@ -196,6 +196,9 @@ func runFunc(eng *Engine, key, tier string, verbose bool) int {
 		if verbose || !ok {
 			fmt.Printf("  %-70s %-8s %-7s %.2fs %s\n", strings.TrimPrefix(o.Name, key), o.Res.Status, o.Res.Solver, o.Res.Secs, o.Where)
 		}
+		if !ok && os.Getenv("GOVC_EXPLAIN") != "" && strings.Contains(o.Name, os.Getenv("GOVC_EXPLAIN")) {
+			explain(res, o)
+		}
 	}
 	for _, n := range res.Notes {
 		fmt.Println("  note:", n)
@@ -219,4 +222,42 @@ func loadFindings(verif string) []Finding {
 	}
 	json.Unmarshal(data, &fs)
 	return fs
+}
+
+// explain prints a (candidate) model of a failing obligation: parameters, lets, index terms, extra terms from GOVC_TERMS
+func explain(res *FuncResult, o *Oblig) {
+	q := res.x.buildQuery(o)
+	var names, terms []string
+	for n, t := range res.x.modelTerms {
+		names = append(names, n)
+		terms = append(terms, t)
+	}
+	for _, t := range o.Idx {
+		if !strings.Contains(t.T, "?") {
+			names = append(names, "idx "+t.T)
+			terms = append(terms, t.T)
+		}
+	}
+	for _, t := range strings.Split(os.Getenv("GOVC_TERMS"), ";") {
+		if strings.TrimSpace(t) != "" {
+			names = append(names, t)
+			terms = append(terms, t)
+		}
+	}
+	q.Values = terms
+	text := res.decls.render(q)
+	if p := os.Getenv("GOVC_DUMP"); p != "" {
+		os.WriteFile(p, []byte(text), 0644)
+	}
+	r := solveText(text, 10000)
+	fmt.Println("    explain:", r.Status, r.Solver)
+	if r.Status == "sat" {
+		vals := parseValues(r.Output)
+		for i, n := range names {
+			if i < len(vals) {
+				fmt.Printf("      %-60s = %s\n", truncate(n, 60), vals[i])
+			}
+		}
+	}
+	fmt.Println("    goal:", truncate(render(o.Goal), 600))
 }
